@@ -57,7 +57,7 @@ class Engine:
         """Every normal path ENTRY->EXIT of func passes a CFG node for which direct_pred(node) holds, or which
         contains a resolved call (on the same object if same_object) to a function that itself must_call.
         Functions without a normal exit (always raise) vacuously satisfy this."""
-        key = (id(ctx), id(func), id(direct_pred))
+        key = (id(ctx), id(func), direct_pred)  # holds the predicate: ids of dead closures get reused
         if key in self._must:
             return self._must[key]
         if key in _stack:
